@@ -101,7 +101,15 @@ def mk_det(kind, prm, cost=None, inner=None):
                       collective_penalty_scale=sc, point_penalty_scale=sc, min_segment_length=max(m, 2))
     if prm.get("inner") == "shared":
         return StatThresholdAnomaliser(inner if inner is not None else mk_inner(), stat=np.mean, stat_lower=-1.0, stat_upper=1.0)
-    return StatThresholdAnomaliser(PELT(min_segment_length=m, penalty_scale=sc), stat=np.mean, stat_lower=-1.0, stat_upper=1.0)
+    # a user statistic that works on the array it is handed (sorts it in place): what it is handed must not be the caller's data
+    stat = inplace_midpoint if (m + int(round(4 * (sc or 0.75)))) % 2 else np.mean
+    return StatThresholdAnomaliser(PELT(min_segment_length=m, penalty_scale=sc), stat=stat, stat_lower=-1.0, stat_upper=1.0)
+
+
+def inplace_midpoint(v):
+    """mean of the smallest and the largest value, computed by sorting the argument in place"""
+    v.sort()
+    return 0.5 * (float(v[0]) + float(v[-1]))
 
 
 def datasets(seed):
